@@ -1,2 +1,4 @@
 import Cinco.Props.C04
+import Cinco.Props.C07
+import Cinco.Props.C08
 import Cinco.Props.C18
